@@ -62,6 +62,37 @@ def linear_failure(c):
             return '%s: integer centre %s is %.3f px from the true centre %s (%s radius %s, contrast %s, start %s)' % (name, cen[0, 0].tolist(), dc, c['true'], c['desc']['kind'], c['desc']['radius'], c['contrast'], start)
         if dr > 0.5:
             return '%s: refined %s is %.3f px from the true centre %s (%s radius %s, contrast %s, start %s)' % (name, ref[0, 0].tolist(), dr, c['true'], c['desc']['kind'], c['desc']['radius'], c['contrast'], start)
+    # full-frame pipeline: the window is cut out of the correlation map of the whole frame, so the peak is intact even when the start
+    # is off by crop_size - 1 and the maximum sits one pixel from the window edge (the centre-of-mass window then shrinks to 3x3)
+    far = [q for q in ((r0[0] + cs - 1, r0[1]), (r0[0], r0[1] - (cs - 1)), (r0[0] - (cs - 1), r0[1] + cs - 1)) if cs <= q[0] <= fy - cs and cs <= q[1] <= fx - cs]
+    if far:
+        cen, ref, hei, ele = cc.process_frames_full(pattern, frame, np.array(far))
+        for k, q in enumerate(far):
+            dc = float(np.abs(cen[0, k].astype(np.float64) - np.array(c['true'])).max())
+            dr = float(np.abs(ref[0, k].astype(np.float64) - np.array(c['true'])).max())
+            idx = cen[0, k].astype(np.int64) - (np.array(q) - cs)
+            idt = np.rint(np.array(c['true'])).astype(np.int64) - (np.array(q) - cs)
+            if (idx <= 0).any() or (idx >= 2 * cs - 1).any() or (idt <= 0).any() or (idt >= 2 * cs - 1).any():
+                continue                      # maximum (found or true) on the window edge itself: no neighbourhood to refine in
+            if dc > 1.0 + 1e-6 or dr > 0.5:
+                return 'process_frames_full: start %s (crop_size - 1 = %d px off): centre %s / refined %s are %.3f / %.3f px from the true centre %s (%s radius %s)' % (
+                    q, cs - 1, cen[0, k].tolist(), ref[0, k].tolist(), dc, dr, c['true'], c['desc']['kind'], c['desc']['radius'])
+    # a stack of frames in which the disk moves by a few pixels on an exactly flat background: every frame on its own merits
+    if cap >= 3:
+        moves = [(0.0, 0.0), (2.3, -1.6), (-1.2, 2.7)]
+        fr = []
+        for (my, mx) in moves:
+            Dm = masks.circular(centerX=c['true'][1] + mx, centerY=c['true'][0] + my, imageSizeX=fx, imageSizeY=fy, radius=c['desc']['radius'], antialiased=True).astype(np.float64)
+            fr.append(c['bg'] * (1 + c['contrast'] * Dm))
+        stack = np.array(fr, dtype=np.float32)
+        for name, fn in (('process_frames_full', cc.process_frames_full), ('process_frames_fast', cc.process_frames_fast)):
+            cen, ref, hei, ele = fn(pattern, stack, np.array([r0]))
+            for k, (my, mx) in enumerate(moves):
+                tr = np.array([c['true'][0] + my, c['true'][1] + mx])
+                dr = float(np.abs(ref[k, 0].astype(np.float64) - tr).max())
+                if dr > 0.5:
+                    return '%s: frame #%d of a stack (disk moved by %s): refined %s is %.3f px from the true centre %s (%s radius %s)' % (
+                        name, k, (my, mx), ref[k, 0].tolist(), dr, tr.tolist(), c['desc']['kind'], c['desc']['radius'])
     return None
 
 
@@ -138,7 +169,7 @@ def replay(body):
 def run(ctx):
     rng = ctx.rng
     ctx.check_theorems()
-    ctx.check_generated(['qus'])
+    ctx.check_generated(['qus', 'k'])
     # (K) the model pipeline agrees with the implementation on small sub-pixel disks (integer-rounded intensities)
     items = []
     tries = 0
